@@ -194,6 +194,29 @@ Definition zero_slots (sz bsz off n : nat) (sl : list slot) : res (list slot) :=
 
 Inductive ret := RCount (n : nat) | RErr (e : err).
 
+(* the part of mpt_buffer_set behind the argument checks, typed target with elements of [elem] bytes:
+   [cf] = the copy constructor refuses every source *)
+Definition buffer_set_typed (cf : bool) (b : buf) (elem pos end_ : nat) (src : option (list slot)) (c : ctx)
+  : res (buf * ctx * ret) :=
+  let used := bused b - bused b mod elem in
+  let bsz := bsize b in
+  (* terminate overlapping target data: [pos, min(end, used)) *)
+  let ovl := if end_ <? used then end_ else used in
+  do '(sl1, c1) <- fini_loop (S used) elem bsz 0 pos ovl (bslots b) c;
+  (* initialize prepending data *)
+  do '(sl2, c2, off, ok) <- gap_loop (S pos) elem bsz used pos sl1 c1;
+  if negb ok then Ok (with_used (with_slots b sl2) off, c2, RErr BadOperation) else
+  (* prepare target and copy data *)
+  do '(sl3, c3, count, failed) <- copy_loop cf (S end_) elem bsz pos end_ 0 src 0 sl2 c2;
+  match failed with
+  | Some p =>
+    (* invalidate remaining data as result of fatal error *)
+    do '(sl4, c4) <- fini_loop (S used) elem bsz 0 end_ used sl3 c3;
+    Ok (with_used (with_slots b sl4) p, c4, RCount count)
+  | None =>
+    Ok (with_used (with_slots b sl3) (if used <? end_ then end_ else used), c3, RCount count)
+  end.
+
 (* mpt_buffer_set(buf, src_traits, pos, src_data, len) *)
 Definition buffer_set (e : env) (b : buf) (st : option kind) (pos : nat) (src : option (list slot))
   (len : nat) (c : ctx) : res (buf * ctx * ret) :=
@@ -213,26 +236,9 @@ Definition buffer_set (e : env) (b : buf) (st : option kind) (pos : nat) (src : 
       let elem := esz e ks in
       if (elem =? 0) || negb (pos mod elem =? 0) || negb (len mod elem =? 0)
       then Ok (b, c, RErr BadArgument) else
-      let used := bused b - bused b mod elem in
       (* compatible types must share finalizer and size: the two harness traits do not *)
       if negb (kind_eqb k ks) then Ok (b, c, RErr BadType) else
-      let bsz := bsize b in
-      (* terminate overlapping target data: [pos, min(end, used)) *)
-      let ovl := if end_ <? used then end_ else used in
-      do '(sl1, c1) <- fini_loop (S used) elem bsz 0 pos ovl (bslots b) c;
-      (* initialize prepending data *)
-      do '(sl2, c2, off, ok) <- gap_loop (S pos) elem bsz used pos sl1 c1;
-      if negb ok then Ok (with_used (with_slots b sl2) off, c2, RErr BadOperation) else
-      (* prepare target and copy data *)
-      do '(sl3, c3, count, failed) <- copy_loop (ecopyfail e && kind_eqb k KA) (S end_) elem bsz pos end_ 0 src 0 sl2 c2;
-      match failed with
-      | Some p =>
-        (* invalidate remaining data as result of fatal error *)
-        do '(sl4, c4) <- fini_loop (S used) elem bsz 0 end_ used sl3 c3;
-        Ok (with_used (with_slots b sl4) p, c4, RCount count)
-      | None =>
-        Ok (with_used (with_slots b sl3) (if used <? end_ then end_ else used), c3, RCount count)
-      end
+      buffer_set_typed (ecopyfail e && kind_eqb k KA) b elem pos end_ src c
     end
   end.
 
